@@ -109,7 +109,8 @@ impl Accessible for TargetAddress {
 
     fn type_of<'b>(&self, name: &str, _ctx: ScriptContextRef) -> Result<Type, Error> {
         match name {
-            "host" | "port" | "type" => Ok(Type::String),
+            "host" | "type" => Ok(Type::String),
+            "port" => Ok(Type::Integer),
             _ => bail!("undefined"),
         }
     }
@@ -174,7 +175,8 @@ impl Accessible for SocketAddress {
 
     fn type_of<'b>(&self, name: &str, _ctx: ScriptContextRef) -> Result<Type, Error> {
         match name {
-            "host" | "port" | "type" => Ok(Type::String),
+            "host" | "type" => Ok(Type::String),
+            "port" => Ok(Type::Integer),
             _ => bail!("undefined"),
         }
     }
